@@ -769,44 +769,7 @@ Fixpoint replay_check (n : nat) (s : state) (os : list obs) : nat * bool * (nat 
   end.
 
 (* ------------------------------------------------------------------------------------------ *)
-(* exploration helpers (used by the harness to test the variant on concrete states; not in proofs) *)
+(* an unused id always exists (progress: a member with an empty id can always send its JoinGroup) *)
 Definition all_ids (s : state) : list nat :=
   ids (c_ents (s_c s)) ++ c_pend (s_c s) ++ flat_map (fun m => [m_id m; m_focus m]) (s_ms s).
 Definition max_id (s : state) : nat := fold_right Nat.max 0 (all_ids s).
-Definition all_labels (s : state) : list label :=
-  flat_map (fun m => let i := m_name m in
-              [LFind i; LSendJoin i true (S (max_id s)); LSendJoin i false (S (max_id s)); LRecv i; LSendSync i;
-               LHbSend i; LHbRecv i; LCmSend i; LCmRecv i]) (s_ms s)
-  ++ flat_map (fun e => [LExpire (e_id e) false; LExpire (e_id e) true]) (c_ents (s_c s)).
-Definition enabled (s : state) : list label := filter (fun l => negb (is_none (step s l))) (all_labels s).
-(* what goes wrong at [s] (empty = nothing): 1 successor violates inv_b, 2 variant not decreased by a real step,
-   3 variant increased by a no-op, 4 not converged but no real step is enabled, not even after one no-op *)
-Definition check_here (s : state) : list (nat * label) :=
-  flat_map (fun l => match step s l with
-                     | None => []
-                     | Some s' =>
-                         (if inv_b s' then [] else [(1, l)])
-                         ++ (if noop_b s l then (if mu s' <=? mu s then [] else [(3, l)])
-                             else (if mu s' <? mu s then [] else [(2, l)]))
-                     end) (all_labels s)
-  ++ (if converged_b s || existsb (fun l => negb (noop_b s l)) (enabled s)
-         || existsb (fun l0 => match step s l0 with
-                               | Some s0 => existsb (fun l => negb (noop_b s0 l)) (enabled s0)
-                               | None => false end) (enabled s)
-      then [] else [(4, LFind 0)]).
-Fixpoint explore (depth : nat) (s : state) : list (state * nat * label) :=
-  match check_here s with
-  | (k, l) :: _ => [(s, k, l)]
-  | [] => match depth with
-          | 0 => []
-          | S d => (fix go (ls : list label) : list (state * nat * label) :=
-                      match ls with
-                      | [] => []
-                      | l :: r => match step s l with
-                                  | Some s' => if noop_b s l then go r
-                                               else match explore d s' with [] => go r | bad => bad end
-                                  | None => go r
-                                  end
-                      end) (all_labels s)
-          end
-  end.
